@@ -2,6 +2,8 @@ package main
 
 import (
 	"bufio"
+	"strconv"
+	"strings"
 
 	"verifharness/internal/hx"
 )
@@ -14,7 +16,65 @@ import (
 // c04.run, whose oracle is liveness only: the run went idle and no accepted event was left
 // without a commit or a drop.
 
+// C13 (no event content can crash an action plugin) additionally runs chains of the real join and
+// split plugins in a real pipeline (c13.chain): Propagate and Spawn call into each other's actions
+// (join.Do <- Spawn's time-out events, split.Do <- Propagate), which the per-action cases of c13.go
+// cannot exercise. Same case format and execution as c01.run; the oracle is the liveness one
+// (the run goes idle, nothing lost, no crash).
+func genC13Chain(r *hx.Rng) *c01Gen {
+	g := genC01Case(r, false)
+	g.failpat = ""
+	g.retry = 0
+	chains := []string{"j0,p1", "v0,j0,p2", "j0,v1,p2", "p0,j0", "j0,j1,p2", "j0,p1,j1", "j0:c,p1", "j0,p1:c"}
+	g.chain = chains[r.Intn(len(chains))]
+	nact := len(strings.Split(g.chain, ","))
+	g.events = g.events[:0]
+	g.nsrc = 1
+	nev := r.Range(2, 10)
+	nstreams := r.Range(1, 2)
+	for i := 0; i < nev; i++ {
+		stream := "s" + strconv.Itoa(r.Intn(nstreams))
+		v := []byte(strings.Repeat("P", nact))
+		if r.Chance(1, 8) {
+			v[r.Intn(nact)] = 'D'
+		}
+		ms := make([]string, 2)
+		for f := range ms {
+			switch r.Intn(5) {
+			case 0, 1:
+				ms[f] = "S" + strconv.Itoa(i)
+			case 2:
+				ms[f] = "C" + strconv.Itoa(i)
+			case 3:
+				ms[f] = "x" + strconv.Itoa(i)
+			}
+		}
+		kids := 0
+		if r.Chance(1, 2) {
+			kids = r.Range(1, 2)
+		}
+		spec := c01SpecKids(stream, string(v), ms, kids)
+		spec = append(spec[:len(spec)-1], []byte(`,"k0":"y","k1":"y","k2":"y"}`)...)
+		g.events = append(g.events, c01Event{src: 0, stream: stream, spec: spec})
+	}
+	return g
+}
+
 func init() {
+	execs["c13.chain"] = execC01
+	if old, ok := gens["C13"]; ok {
+		gens["C13"] = func(w *bufio.Writer, rng *hx.Rng, tier string) {
+			old(w, rng, tier)
+			n := 60
+			if tier == "thorough" {
+				n = 1200
+			}
+			r2 := hx.NewRng(rng.U64())
+			for i := 0; i < n; i++ {
+				genC13Chain(r2).write(w, "c13.chain")
+			}
+		}
+	}
 	execs["c04.run"] = execC01
 	if old, ok := gens["C04"]; ok {
 		gens["C04"] = func(w *bufio.Writer, rng *hx.Rng, tier string) {
